@@ -172,7 +172,11 @@ def exec(code: Union[str, ast.Module, ast.stmt], *args, **kwargs) -> Dict[str, A
 
 
 def execute(*args, **kwargs) -> Dict[str, Any]:
-    return exec(*args, **kwargs)
+    return exec(
+        *args,
+        num_extra_lookback_frames=kwargs.pop("num_extra_lookback_frames", 0) + 1,
+        **kwargs,
+    )
 
 
 def instrumented(tracers: List[BaseTracer]) -> Callable[[Callable[..., Any]], Callable[..., Any]]:
